@@ -19,6 +19,9 @@ func Canon(v *lisp.LVal) string {
 	return b.String()
 }
 
+// CanonLimit bounds the canonical rendering (same constant in refint.Canon).
+const CanonLimit = 200000
+
 func FloatCanon(f float64) string {
 	if math.IsNaN(f) {
 		return "NaN"
@@ -42,6 +45,10 @@ func canon(b *strings.Builder, v *lisp.LVal, seen map[*lisp.LVal]bool, depth int
 	}
 	if depth > 200 {
 		b.WriteString("#deep")
+		return
+	}
+	if b.Len() > CanonLimit {
+		b.WriteString("#trunc")
 		return
 	}
 	switch v.Type {
